@@ -13,7 +13,8 @@ PROXIES = [
     ('http://solo@proxy.local:8080', 'proxy.local', 8080, False, b'solo'),
 ]
 TARGETS = [('ws://example.com/chat', 'example.com', 80, False), ('ws://example.com:9000/chat', 'example.com', 9000, False),
-           ('wss://example.com/chat', 'example.com', 443, True), ('wss://example.com:8443/', 'example.com', 8443, True)]
+           ('wss://example.com/chat', 'example.com', 443, True), ('wss://example.com:8443/', 'example.com', 8443, True),
+           ('ws://[2001:db8::9]:9000/v6', '2001:db8::9', 9000, False)]
 
 
 def answers():
@@ -131,8 +132,8 @@ class C19(F.Check):
         req, problems = ref_http.parse_request(first) if first else (None, ['nothing written'])
         if req is None or req.method != b'CONNECT':
             out.append(('first-write-not-connect', 'first bytes on the proxy socket: %r' % first[:80]))
-        elif req.target != ('%s:%d' % (thost, tport)).encode():
-            out.append(('connect-target', 'CONNECT names %r, the target is %s:%d' % (req.target, thost, tport)))
+        elif req.target != ('%s:%d' % ('[%s]' % thost if ':' in thost else thost, tport)).encode():
+            out.append(('connect-target', 'CONNECT names %r, the target is %s port %d (an IPv6 literal keeps its brackets)' % (req.target, thost, tport)))
         # ordering: no write between the CONNECT and the read that completed the proxy's answer
         calls = [c for c in world.calls if c[1] == conn.idx]
         seq = [c[2] for c in calls if c[2] in ('sendall', 'recv', 'tls-wrap')]
